@@ -230,8 +230,8 @@ def _value_kinds(fn, e: ast.AST) -> List[Tuple[str, bool]]:
         for st in local_assignments(fn).get(e.id, []):
             if isinstance(st, ast.Assign):
                 v = unparse(st.value)
-                if v.endswith(".default"):
-                    # is the prefix parameter reset in the same block?
+                if any(isinstance(x, ast.Attribute) and x.attr == "default" for x in ast.walk(st.value)):
+                    # is the prefix parameter reset, unconditionally, in the same block?
                     blk = parent(st)
                     body = getattr(blk, "body", []) if st in getattr(blk, "body", []) else getattr(blk, "orelse", [])
                     cleared = any(isinstance(s2, ast.Assign) and isinstance(s2.targets[0], ast.Name)
@@ -1047,3 +1047,63 @@ def rule_keyword_escaping(ctx, rep: Report, rid="A6"):
                 f"{ci.mod.rel}:{fn.lineno}")
         rep.add(rid, f"{name}:the escaped name is the one emitted", True, f"slot {slot} <- {var}",
                 f"{ci.mod.rel}:{fn.lineno}", nontrivial=False)
+
+
+
+def rule_default_text_verbatim(ctx, rep: Report, rid="B2", rels=("gtwrap/pybind_wrapper.py", "gtwrap/matlab_wrapper/wrapper.py")):
+    """Default-value text is copied verbatim: wherever an emitter reads `<x>.default` the value is
+    tested against None, bound to a slot or appended as it is - never passed through a string
+    method or function."""
+    prog = ctx.prog
+    n = 0
+    for rel in rels:
+        mi = prog.module(rel)
+        for x in ast.walk(mi.tree):
+            if not (isinstance(x, ast.Attribute) and x.attr == "default" and isinstance(x.ctx, ast.Load)):
+                continue
+            p = parent(x)
+            fn = enclosing(x, ast.FunctionDef)
+            ok = True
+            how = type(p).__name__
+            if isinstance(p, ast.Attribute):                      # x.default.split / .strip / .replace ...
+                ok = False
+                how = f".{p.attr}"
+            elif isinstance(p, ast.Call) and x in p.args:
+                f = unparse(p.func)
+                ok = f in ("isinstance", "str") or f.endswith(".format") or f.endswith(".append")
+                how = f"argument of {f}"
+            elif isinstance(p, ast.Subscript) and p.value is x and not (isinstance(p.slice, ast.Constant) and p.slice.value == 0):
+                ok = False
+                how = f"subscript {unparse(p)[:30]}"
+            elif isinstance(p, ast.BinOp) and not isinstance(p.op, ast.Add):
+                ok = False
+            n += 1
+            rep.add(rid, f"default text:{fn.name if fn else '?'}:{unparse(p)[:50]}", ok,
+                    f"the default-value text is rewritten ({how}) before it is emitted; defaults are copied verbatim "
+                    f"(white space inside string literals is significant)", f"{rel}:{x.lineno}", nontrivial=not ok)
+        # format fields {arg.default} count as direct bindings
+    if n < 6:
+        raise AnalysisError(f"{rep.prop}/{rid}: {n} reads of .default in the emitters, >= 6 expected")
+
+
+def rule_all_children_visited(ctx, rep: Report, rid="A3"):
+    """Every recursive wrap_namespace call is made for the loop variable of a loop over the namespace's
+    content, once per child namespace (a namespace may be opened several times)."""
+    ci, prog = pw(ctx)
+    fn = prog.method("PybindWrapper", "wrap_namespace")
+    np_ = func_params(fn)[1]
+    calls = [c for c in walk_no_nested(fn) if isinstance(c, ast.Call) and unparse(c.func) == "self.wrap_namespace"]
+    if len(calls) < 2:
+        raise AnalysisError(f"wrap_namespace: {len(calls)} recursive calls found, 2 expected")
+    for k, c in enumerate(sorted(calls, key=lambda x: x.lineno)):
+        loop = enclosing(c, ast.For)
+        arg = c.args[0] if c.args else None
+        ok = loop is not None and isinstance(arg, ast.Name) and isinstance(loop.target, ast.Name) and arg.id == loop.target.id \
+            and unparse(loop.iter) == f"{np_}.content"
+        gs = [g for g, pol in guards_of(c, fn, include_exits=False) if pol]
+        inner = [g for g in gs if loop is not None and any(g == unparse(i.test) for i in ast.walk(loop) if isinstance(i, ast.If))]
+        ok = ok and len(inner) == 1 and inner[0].replace(" ", "") == f"isinstance({arg.id if isinstance(arg, ast.Name) else '?'},parser.Namespace)"
+        rep.add(rid, f"wrap_namespace:recursive call #{k}:made for every child namespace in content order", ok,
+                f"`{unparse(c)[:60]}` under {gs}: child namespaces must be visited one by one from `{np_}.content` "
+                f"(a dictionary or a single look-up keeps one block of a re-opened namespace and drops the others)",
+                f"{ci.mod.rel}:{c.lineno}")
